@@ -13,11 +13,12 @@ namespace HsVerif.Props.C02Gen
 open HsVerif.Gen.Methods
 
 section generic
-variable {QC TC PC Blk Hash Sig IDs Bytes : Type} [DecidableEq Blk] [DecidableEq Hash] [DecidableEq Sig] [DecidableEq IDs]
+variable {QC TC PC Blk Hash Sig IDs Bytes Msg AggQC : Type} [DecidableEq Blk] [DecidableEq Hash] [DecidableEq Sig] [DecidableEq IDs]
+  [DecidableEq Msg] [DecidableEq AggQC]
 
 /-- The environment of an `Authority`: nil values, the genesis block, accessors of the opaque values, the other
 components. -/
-structure Env (QC TC PC Blk Hash Sig IDs Bytes : Type) where
+structure Env (QC TC PC Blk Hash Sig IDs Bytes Msg AggQC : Type) where
   blkNil : Blk
   sigNil : Sig
   idsNil : IDs
@@ -38,25 +39,39 @@ structure Env (QC TC PC Blk Hash Sig IDs Bytes : Type) where
   quorumSize : Int
   get : Hash → Blk × Bool
   verify : Sig → Bytes → Bool
+  -- (S22) what `VerifyAnyQC` needs: a proposal is a pointer-like opaque value, so is its aggregate QC
+  msgNil : Msg
+  aggNil : AggQC
+  msgBlock : Msg → Blk
+  msgAgg : Msg → AggQC
+  blkQC : Blk → QC
+  aggSig : AggQC → Sig
+  aggView : AggQC → Int
+  hasAgg : Bool
+  vQC : QC → Bool
+  vAgg : AggQC → QC × Bool
 
 /-- `VerifyPartialCert` as regenerated, on an environment. -/
-def verifyPC (E : Env QC TC PC Blk Hash Sig IDs Bytes) (c : PC) : Unit × Bool × Bool :=
+def verifyPC (E : Env QC TC PC Blk Hash Sig IDs Bytes Msg AggQC) (c : PC) : Unit × Bool × Bool :=
   Authority_VerifyPartialCert E.blkNil E.sigNil E.idsNil E.genesis E.qcHash E.qcView E.qcSig E.tcView E.tcSig E.pcHash
-    E.pcSig E.participants E.len E.blkHash E.blkView E.blkBytes E.viewBytes E.quorumSize E.get E.verify c
+    E.pcSig E.participants E.len E.blkHash E.blkView E.blkBytes E.viewBytes E.quorumSize E.get E.verify E.msgNil E.aggNil E.msgBlock E.msgAgg E.blkQC
+    E.aggSig E.aggView E.hasAgg E.vQC E.vAgg c
 
 /-- `VerifyQuorumCert` as regenerated. -/
-def verifyQC (E : Env QC TC PC Blk Hash Sig IDs Bytes) (qc : QC) : Unit × Bool × Bool :=
+def verifyQC (E : Env QC TC PC Blk Hash Sig IDs Bytes Msg AggQC) (qc : QC) : Unit × Bool × Bool :=
   Authority_VerifyQuorumCert E.blkNil E.sigNil E.idsNil E.genesis E.qcHash E.qcView E.qcSig E.tcView E.tcSig E.pcHash
-    E.pcSig E.participants E.len E.blkHash E.blkView E.blkBytes E.viewBytes E.quorumSize E.get E.verify qc
+    E.pcSig E.participants E.len E.blkHash E.blkView E.blkBytes E.viewBytes E.quorumSize E.get E.verify E.msgNil E.aggNil E.msgBlock E.msgAgg E.blkQC
+    E.aggSig E.aggView E.hasAgg E.vQC E.vAgg qc
 
 /-- `VerifyTimeoutCert` as regenerated. -/
-def verifyTC (E : Env QC TC PC Blk Hash Sig IDs Bytes) (tc : TC) : Unit × Bool × Bool :=
+def verifyTC (E : Env QC TC PC Blk Hash Sig IDs Bytes Msg AggQC) (tc : TC) : Unit × Bool × Bool :=
   Authority_VerifyTimeoutCert E.blkNil E.sigNil E.idsNil E.genesis E.qcHash E.qcView E.qcSig E.tcView E.tcSig E.pcHash
-    E.pcSig E.participants E.len E.blkHash E.blkView E.blkBytes E.viewBytes E.quorumSize E.get E.verify tc
+    E.pcSig E.participants E.len E.blkHash E.blkView E.blkBytes E.viewBytes E.quorumSize E.get E.verify E.msgNil E.aggNil E.msgBlock E.msgAgg E.blkQC
+    E.aggSig E.aggView E.hasAgg E.vQC E.vAgg tc
 
 /-- What Go guarantees about the values the checks dereference: the genesis block is a block, a block the store
 reports as found is a block, and the participant set of a (non-nil) signature is a set. -/
-structure WellFormed (E : Env QC TC PC Blk Hash Sig IDs Bytes) : Prop where
+structure WellFormed (E : Env QC TC PC Blk Hash Sig IDs Bytes Msg AggQC) : Prop where
   genesis_ne : E.genesis ≠ E.blkNil
   get_ne : ∀ h, (E.get h).2 = true → (E.get h).1 ≠ E.blkNil
   participants_ne : ∀ s, s ≠ E.sigNil → E.participants s ≠ E.idsNil
@@ -65,7 +80,7 @@ structure WellFormed (E : Env QC TC PC Blk Hash Sig IDs Bytes) : Prop where
 block's own view, or it certifies another hash, carries a signature, the signature has at least
 `config.QuorumSize()` participants, the certified block is in the store, the view claimed by the QC is that block's
 view, and the signature verifies over that block's bytes. -/
-theorem verifyQC_accepts_iff (E : Env QC TC PC Blk Hash Sig IDs Bytes) (qc : QC) :
+theorem verifyQC_accepts_iff (E : Env QC TC PC Blk Hash Sig IDs Bytes Msg AggQC) (qc : QC) :
     (verifyQC E qc).2.1 = false ↔
       (E.qcHash qc = E.blkHash E.genesis ∧ E.qcView qc = E.blkView E.genesis) ∨
       (E.qcHash qc ≠ E.blkHash E.genesis ∧
@@ -83,7 +98,7 @@ theorem verifyQC_accepts_iff (E : Env QC TC PC Blk Hash Sig IDs Bytes) (qc : QC)
 /-- A QC for a block other than genesis that is accepted has at least `config.QuorumSize()` participants — the one
 threshold every component must use (C20) — and its signature verified over the bytes of the stored block with the
 certified hash, whose view is the view the QC claims. -/
-theorem verifyQC_needs_quorum (E : Env QC TC PC Blk Hash Sig IDs Bytes) (qc : QC)
+theorem verifyQC_needs_quorum (E : Env QC TC PC Blk Hash Sig IDs Bytes Msg AggQC) (qc : QC)
     (hg : E.qcHash qc ≠ E.blkHash E.genesis) (h : (verifyQC E qc).2.1 = false) :
     E.quorumSize ≤ E.len (E.participants (E.qcSig qc)) ∧
     (E.get (E.qcHash qc)).2 = true ∧
@@ -95,7 +110,7 @@ theorem verifyQC_needs_quorum (E : Env QC TC PC Blk Hash Sig IDs Bytes) (qc : QC
 
 /-- `VerifyTimeoutCert` returns no error EXACTLY WHEN the view is 0, or the TC carries a signature with at least
 `config.QuorumSize()` participants that verifies over the bytes of the TC's view. -/
-theorem verifyTC_accepts_iff (E : Env QC TC PC Blk Hash Sig IDs Bytes) (tc : TC) :
+theorem verifyTC_accepts_iff (E : Env QC TC PC Blk Hash Sig IDs Bytes Msg AggQC) (tc : TC) :
     (verifyTC E tc).2.1 = false ↔
       E.tcView tc = 0 ∨
       (E.tcSig tc ≠ E.sigNil ∧
@@ -108,7 +123,7 @@ theorem verifyTC_accepts_iff (E : Env QC TC PC Blk Hash Sig IDs Bytes) (tc : TC)
   all_goals omega
 
 /-- A TC for a view other than 0 that is accepted has at least `config.QuorumSize()` participants. -/
-theorem verifyTC_needs_quorum (E : Env QC TC PC Blk Hash Sig IDs Bytes) (tc : TC)
+theorem verifyTC_needs_quorum (E : Env QC TC PC Blk Hash Sig IDs Bytes Msg AggQC) (tc : TC)
     (hv : E.tcView tc ≠ 0) (h : (verifyTC E tc).2.1 = false) :
     E.quorumSize ≤ E.len (E.participants (E.tcSig tc)) ∧
     E.verify (E.tcSig tc) (E.viewBytes (E.tcView tc)) = false := by
@@ -119,7 +134,7 @@ theorem verifyTC_needs_quorum (E : Env QC TC PC Blk Hash Sig IDs Bytes) (tc : TC
 /-- `VerifyPartialCert` returns no error EXACTLY WHEN the certified block is in the store and the certificate's
 signature verifies over that block's bytes.  (It checks neither that the signature is non-nil nor how many
 participants it has: both are left to `Verify`.) -/
-theorem verifyPC_accepts_iff (E : Env QC TC PC Blk Hash Sig IDs Bytes) (c : PC) :
+theorem verifyPC_accepts_iff (E : Env QC TC PC Blk Hash Sig IDs Bytes Msg AggQC) (c : PC) :
     (verifyPC E c).2.1 = false ↔
       (E.get (E.pcHash c)).2 = true ∧
       E.verify (E.pcSig c) (E.blkBytes (E.get (E.pcHash c)).1) = false := by
@@ -130,7 +145,7 @@ theorem verifyPC_accepts_iff (E : Env QC TC PC Blk Hash Sig IDs Bytes) (c : PC) 
 
 /-- No nil dereference in `VerifyQuorumCert`, on EVERY path (accepting or rejecting), for well-formed values; the
 nil check of the signature is what makes `qcSignature.Participants()` safe. -/
-theorem verifyQC_no_nil_deref (E : Env QC TC PC Blk Hash Sig IDs Bytes) (wf : WellFormed E) (qc : QC) :
+theorem verifyQC_no_nil_deref (E : Env QC TC PC Blk Hash Sig IDs Bytes Msg AggQC) (wf : WellFormed E) (qc : QC) :
     (verifyQC E qc).2.2 = true := by
   have hg := wf.genesis_ne
   have hb := wf.get_ne (E.qcHash qc)
@@ -141,7 +156,7 @@ theorem verifyQC_no_nil_deref (E : Env QC TC PC Blk Hash Sig IDs Bytes) (wf : We
   all_goals simp_all
 
 /-- No nil dereference in `VerifyTimeoutCert`, on every path. -/
-theorem verifyTC_no_nil_deref (E : Env QC TC PC Blk Hash Sig IDs Bytes) (wf : WellFormed E) (tc : TC) :
+theorem verifyTC_no_nil_deref (E : Env QC TC PC Blk Hash Sig IDs Bytes Msg AggQC) (wf : WellFormed E) (tc : TC) :
     (verifyTC E tc).2.2 = true := by
   have hp := wf.participants_ne (E.tcSig tc)
   unfold verifyTC Authority_VerifyTimeoutCert
@@ -150,7 +165,7 @@ theorem verifyTC_no_nil_deref (E : Env QC TC PC Blk Hash Sig IDs Bytes) (wf : We
   all_goals simp_all
 
 /-- No nil dereference in `VerifyPartialCert`, on every path. -/
-theorem verifyPC_no_nil_deref (E : Env QC TC PC Blk Hash Sig IDs Bytes) (wf : WellFormed E) (c : PC) :
+theorem verifyPC_no_nil_deref (E : Env QC TC PC Blk Hash Sig IDs Bytes Msg AggQC) (wf : WellFormed E) (c : PC) :
     (verifyPC E c).2.2 = true := by
   have hb := wf.get_ne (E.pcHash c)
   unfold verifyPC Authority_VerifyPartialCert
@@ -160,7 +175,7 @@ theorem verifyPC_no_nil_deref (E : Env QC TC PC Blk Hash Sig IDs Bytes) (wf : We
 
 /-- The flag is exact, not merely sufficient: the only dereferences `VerifyQuorumCert` makes on an ACCEPTING path are
 of the genesis block, the participant set and the stored block — the flag is true there iff those are not nil. -/
-theorem verifyQC_flag_on_accept (E : Env QC TC PC Blk Hash Sig IDs Bytes) (qc : QC)
+theorem verifyQC_flag_on_accept (E : Env QC TC PC Blk Hash Sig IDs Bytes Msg AggQC) (qc : QC)
     (hg : E.qcHash qc ≠ E.blkHash E.genesis) (h : (verifyQC E qc).2.1 = false) :
     (verifyQC E qc).2.2 = true ↔
       (E.genesis ≠ E.blkNil ∧ E.participants (E.qcSig qc) ≠ E.idsNil ∧ (E.get (E.qcHash qc)).1 ≠ E.blkNil) := by
@@ -179,7 +194,8 @@ a signature is (number of participants, the bytes signed) with `(-1, -1)` for ni
 (`-1` for nil); a block is (hash, view) with genesis (0, 0) and nil (-1, -1); the store holds the blocks of hash
 1..9, the block of hash h having view h; the bytes of a block are 100 + its hash, those of a view 200 + the view;
 the quorum size is 3; `Verify` reports an error unless the signature is over exactly those bytes. -/
-def E0 : Env (Int × Int × Int × Int) (Int × Int × Int) (Int × Int × Int) (Int × Int) Int (Int × Int) Int Int where
+def E0 : Env (Int × Int × Int × Int) (Int × Int × Int) (Int × Int × Int) (Int × Int) Int (Int × Int) Int Int
+    (Int × Int) Int where
   blkNil := (-1, -1)
   sigNil := (-1, -1)
   idsNil := -1
@@ -200,6 +216,16 @@ def E0 : Env (Int × Int × Int × Int) (Int × Int × Int) (Int × Int × Int) 
   quorumSize := 3
   get := fun h => if 1 ≤ h ∧ h ≤ 9 then ((h, h), true) else ((-1, -1), false)
   verify := fun s m => decide (s.2 ≠ m)
+  msgNil := (-1, -1)
+  aggNil := -1
+  msgBlock := fun m => (m.1, m.1)
+  msgAgg := fun m => m.2
+  blkQC := fun b => (b.1 - 1, b.2 - 1, 3, 100 + (b.1 - 1))
+  aggSig := fun a => if a = 0 then (-1, -1) else (3, a)
+  aggView := fun a => a
+  hasAgg := true
+  vQC := fun q => decide (q.2.2.1 < 3)
+  vAgg := fun a => ((a, a, 3, 100 + a), decide (a > 9))
 
 /-- A QC for block 5 in view 5 with a quorum of 3 signatures over block 5 is accepted (no error, no nil
 dereference), and so is the genesis QC with a nil signature … -/
@@ -217,5 +243,55 @@ example : verifyTC E0 (4, 3, 204) = ((), false, true) ∧ (verifyTC E0 (4, 2, 20
 /-- Partial certificates: accepted for a stored block, rejected for an unknown block or other bytes. -/
 example : verifyPC E0 (5, 1, 105) = ((), false, true) ∧ (verifyPC E0 (12, 1, 112)).2.1 = true ∧
     (verifyPC E0 (5, 1, 106)).2.1 = true := by decide
+
+/-! ## `VerifyAnyQC` (S22)
+
+`VerifyAnyQC` as regenerated.  Its two calls of sibling methods are parameters of the environment: `vQC` stands for
+`c.VerifyQuorumCert` and `vAgg` for `c.VerifyAggregateQC` (not translated), `true` = an error. -/
+section anyqc
+variable {QC TC PC Blk Hash Sig IDs Bytes Msg AggQC : Type} [DecidableEq Blk] [DecidableEq Hash] [DecidableEq Sig] [DecidableEq IDs]
+  [DecidableEq Msg] [DecidableEq AggQC]
+
+/-- `VerifyAnyQC` as regenerated, on an environment. -/
+def verifyAnyQC (E : Env QC TC PC Blk Hash Sig IDs Bytes Msg AggQC) (m : Msg) : Unit × Bool × Bool :=
+  Authority_VerifyAnyQC E.blkNil E.sigNil E.idsNil E.genesis E.qcHash E.qcView E.qcSig E.tcView E.tcSig E.pcHash
+    E.pcSig E.participants E.len E.blkHash E.blkView E.blkBytes E.viewBytes E.quorumSize E.get E.verify E.msgNil E.aggNil
+    E.msgBlock E.msgAgg E.blkQC E.aggSig E.aggView E.hasAgg E.vQC E.vAgg m
+
+/-- `VerifyAnyQC` returns no error EXACTLY WHEN `VerifyQuorumCert` accepts the block's own QC and, if aggregate QCs are
+enabled and the proposal carries one, that aggregate QC has a signature, `VerifyAggregateQC` accepts it, and the
+block's QC has the view and the block hash of the high QC `VerifyAggregateQC` returned. -/
+theorem verifyAnyQC_accepts_iff (E : Env QC TC PC Blk Hash Sig IDs Bytes Msg AggQC) (m : Msg) :
+    (verifyAnyQC E m).2.1 = false ↔
+      E.vQC (E.blkQC (E.msgBlock m)) = false ∧
+      (E.hasAgg = true ∧ E.msgAgg m ≠ E.aggNil →
+        E.aggSig (E.msgAgg m) ≠ E.sigNil ∧
+        (E.vAgg (E.msgAgg m)).2 = false ∧
+        E.qcView (E.blkQC (E.msgBlock m)) = E.qcView (E.vAgg (E.msgAgg m)).1 ∧
+        E.qcHash (E.blkQC (E.msgBlock m)) = E.qcHash (E.vAgg (E.msgAgg m)).1) := by
+  unfold verifyAnyQC Authority_VerifyAnyQC
+  simp only []
+  repeat' split
+  all_goals simp_all
+  rename_i hne
+  intro _ hv hh
+  rcases hne with hne | hne
+  · exact hne hv
+  · exact hne hh
+
+/-- Whatever the aggregate QC, an accepted proposal's own block QC passed `VerifyQuorumCert`. -/
+theorem verifyAnyQC_always_verifies_block_qc (E : Env QC TC PC Blk Hash Sig IDs Bytes Msg AggQC) (m : Msg)
+    (h : (verifyAnyQC E m).2.1 = false) : E.vQC (E.blkQC (E.msgBlock m)) = false :=
+  ((verifyAnyQC_accepts_iff E m).1 h).1
+
+end anyqc
+
+/-- In `E0` a proposal is (hash = view of its block, aggregate QC), nil = (-1, -1); the block's QC certifies the
+previous hash in the previous view; an aggregate QC is a number (nil = -1, 0 has a nil signature) whose high QC is for
+that hash and view; `vQC` only checks the number of participants.  A proposal for block 6 with aggregate QC 5, or
+none, is accepted; with aggregate QC 4 (another high QC), a nil signature, or one `VerifyAggregateQC` rejects: not. -/
+example : verifyAnyQC E0 (6, 5) = ((), false, true) ∧ verifyAnyQC E0 (6, -1) = ((), false, true) ∧
+    (verifyAnyQC E0 (6, 4)).2.1 = true ∧ (verifyAnyQC E0 (6, 0)).2.1 = true ∧ (verifyAnyQC E0 (12, 11)).2.1 = true := by
+  decide
 
 end HsVerif.Props.C02Gen
